@@ -148,6 +148,8 @@ func (ra *ResponseAdaptor) Handle(ctx *context.Context) string {
 	if len(ra.spec.Body) != 0 {
 		egresp.SetPayload([]byte(ra.spec.Body))
 		egresp.HTTPHeader().Del("Content-Encoding")
+		// the body has been replaced, the Content-Length from the backend no longer applies
+		egresp.HTTPHeader().Set(keyContentLength, strconv.Itoa(len(ra.spec.Body)))
 	}
 
 	if ra.spec.Compress != "" {
